@@ -118,8 +118,10 @@ type FnCtx struct {
 	deriv     map[string]derivInfo
 	lockInit  map[string][][2]string
 	callRes   []Val
+	retRes    map[string]Val
 	dry       int
 	noFacts   int
+	qfacts    [][]string
 	masks     map[string]string // term -> shift term s, for (2^s - 1)
 	pow2s     map[string]string // term -> s, for 2^s
 	boxes     map[string]Val
@@ -292,10 +294,16 @@ func (c *FnCtx) readLoc(st *State, l *Loc) Val {
 }
 
 // leafFact asserts the typing fact of a term read from the heap.
-func (c *FnCtx) leafFact(st *State, term string, lf leaf) {
+func (c *FnCtx) fact(f string) {
 	if c.noFacts > 0 {
-		return // the term mentions a bound variable
+		// the term mentions a bound variable: the fact becomes a hypothesis of the quantifier body
+		c.qfacts[len(c.qfacts)-1] = append(c.qfacts[len(c.qfacts)-1], f)
+		return
 	}
+	c.sc.assert(f)
+}
+
+func (c *FnCtx) leafFact(st *State, term string, lf leaf) {
 	if lf.sort != "Int" {
 		return
 	}
@@ -304,22 +312,26 @@ func (c *FnCtx) leafFact(st *State, term string, lf leaf) {
 		switch kindOf(lf.ty) {
 		case KInt:
 			if f := rangeFact(term, lf.ty); f != "true" {
-				c.sc.assert(f)
+				c.fact(f)
 			}
-		case KRef, KFunc, KStr:
-			c.sc.assert(fmt.Sprintf("(and (<= 0 %s) (<= %s %s))", term, term, st.alloc))
+		case KRef, KFunc:
+			c.fact(fmt.Sprintf("(and (<= 0 %s) (<= %s %s))", term, term, st.alloc))
+		case KStr:
+			c.fact(fmt.Sprintf("(<= 0 %s)", term))
 		}
 	case "arr":
-		c.sc.assert(fmt.Sprintf("(and (<= 0 %s) (<= %s %s))", term, term, st.alloc))
+		c.fact(fmt.Sprintf("(and (<= 0 %s) (<= %s %s))", term, term, st.alloc))
 	case "off", "tag":
-		c.sc.assert(fmt.Sprintf("(<= 0 %s)", term))
+		c.fact(fmt.Sprintf("(<= 0 %s)", term))
+	case "pay":
+		c.fact(fmt.Sprintf("(<= %s %s)", term, st.alloc))
 	case "len":
-		c.sc.assert(fmt.Sprintf("(<= 0 %s)", term))
+		c.fact(fmt.Sprintf("(<= 0 %s)", term))
 	case "cap":
 		// len <= cap: the len term is the same with role swapped
 		lt := strings.Replace(term, ".cap", ".len", 1)
 		if lt != term {
-			c.sc.assert(fmt.Sprintf("(and (<= %s %s) (<= %s %s))", lt, term, term, pow2(62)))
+			c.fact(fmt.Sprintf("(and (<= %s %s) (<= %s %s))", lt, term, term, pow2(62)))
 		}
 	}
 }
